@@ -100,6 +100,8 @@ func checkC05(p *Program, r *Result) {
 	checkChunkBufferIdentity(p, r, "C05.r")
 	r.rule("C05.p", "a length prefix is computed from the quantity the following loop emits", 2)
 	checkPrefixLoops(p, r, "C05.p", pkgMcap)
+	r.rule("C05.x", "MessageIndex.Add records its time and position arguments in a new entry and keeps the earlier ones", 4)
+	checkMessageIndexAdd(p, r, "C05.x")
 	r.rule("C05.i", "index records are written as they were accumulated: encoders do not modify or reorder the record they are handed", 1)
 	checkWriterDoesNotMutateInputs(p, r, "C05.i")
 }
